@@ -52,6 +52,16 @@ def stack_safety(ctx, repo, rule):
         p, r, x = st
         if isinstance(stmt, ast.Assign) and len(stmt.targets) == 1 and isinstance(stmt.targets[0], ast.Name) and stmt.targets[0].id == "exception":
             x = "None" if (isinstance(stmt.value, ast.Constant) and stmt.value.value is None) else "Some"
+        # a stack (re)built by its constructor: deque() is empty, deque([a, b]) holds that many
+        if isinstance(stmt, ast.Assign) and len(stmt.targets) == 1 and isinstance(stmt.targets[0], ast.Name) and stmt.targets[0].id in ("plan_stack", "result_stack") \
+                and isinstance(stmt.value, ast.Call) and (A.call_name(stmt.value) or "").split(".")[-1] == "deque":
+            a0 = stmt.value.args[0] if stmt.value.args else None
+            k = 0 if a0 is None else (len(a0.elts) if isinstance(a0, (ast.List, ast.Tuple)) and not any(isinstance(e, ast.Starred) for e in a0.elts) else None)
+            if k is not None:
+                if stmt.targets[0].id == "plan_stack":
+                    p = min(k, 2)
+                else:
+                    r = min(k, 2)
         outs = [(p, r)]
         calls = sorted(A.calls_in(stmt), key=lambda c: (getattr(c, "end_lineno", 0), getattr(c, "end_col_offset", 0)))
         for c in calls:
@@ -89,8 +99,12 @@ def stack_safety(ctx, repo, rule):
                 return [st] if (x == "Some") == (label == "T") else []
             if t == "exception is None":
                 return [st] if (x == "None") == (label == "T") else []
-            if t == "plan_stack":
+            if t in ("plan_stack", "len(plan_stack)", "len(plan_stack) > 0", "len(plan_stack) != 0"):
                 if label == "T":
+                    return [st] if p >= 1 else []
+                return [st] if p == 0 else []
+            if t in ("not plan_stack", "len(plan_stack) == 0"):
+                if label == "F":
                     return [st] if p >= 1 else []
                 return [st] if p == 0 else []
             return [st]
@@ -167,7 +181,8 @@ def single_yield_and_results(ctx, repo, rule):
     ok = len(ys) == 1 and isinstance(ys[0], ast.Yield) and A.norm(ys[0].value) == "msg"
     ctx.ob(rule, cname(f, None, "single yield site `yield msg`"), ok, "" if ok else f"{len(ys)} yield sites", where=where(f, f.node))
     t = [s for s in A.walk_stmts(f.node.body) if isinstance(s, ast.Try) and any(isinstance(x, ast.Assign) and isinstance(x.value, ast.Yield) for x in s.body)]
-    ok = bool(t) and t[0].orelse and A.norm(t[0].orelse[0]) == f"result_stack.append({A.norm(t[0].body[0].targets[0])})"
+    nxt_ = q.after_success(f.node, t[0]) if t else []
+    ok = bool(t) and bool(nxt_) and A.norm(nxt_[0]) == f"result_stack.append({A.norm(t[0].body[0].targets[0])})"
     ctx.ob(rule, cname(f, None, "the response to the yielded message is pushed as the next result"), ok, "" if ok else "the response is dropped / replaced", where=where(f, f.node))
     if t:
         hs = [h for h in t[0].handlers if h.type is not None and A.norm(h.type) == "Exception" and h.name]
@@ -179,7 +194,8 @@ def single_yield_and_results(ctx, repo, rule):
     ctx.ob(rule, cname(f, None, "send(popped result) / throw(stashed exception) into the top plan"), ok, "" if ok else "send / throw arguments changed", where=where(f, f.node))
     # exception cleared once a plan handled it
     thr = [s for s in A.walk_stmts(f.node.body) if isinstance(s, ast.Try) and any("plan_stack[-1].throw(exception)" in A.norm(x) for x in s.body)]
-    ok = bool(thr) and thr[0].orelse and A.norm(thr[0].orelse[0]) == "exception = None"
+    nxt_ = q.after_success(f.node, thr[0]) if thr else []
+    ok = bool(thr) and bool(nxt_) and A.norm(nxt_[0]) == "exception = None"
     ctx.ob(rule, cname(f, None, "the stashed exception is cleared when a plan handles it"), ok, "" if ok else "a handled exception is thrown again", where=where(f, f.node))
     # return value of the parent plan only
     for h in clones_agree.__wrapped__(repo) if hasattr(clones_agree, "__wrapped__") else []:
